@@ -2,6 +2,7 @@ package main
 
 import (
 	"fmt"
+	"reflect"
 	"sort"
 	"strings"
 
@@ -506,6 +507,20 @@ func suiteSchema16(r *Rng, n int, thorough bool, o *Out) {
 			}
 			ops = append(ops, relop{two, rel})
 		}
+		if r.chance(1, 4) {
+			// two one-way relationships whose type_name strings coincide and whose
+			// other components are equal: only the (type, name) pair tells them apart
+			nt = 4
+			to, one := names[r.IntN(nt)], r.bool()
+			pair := [][2]string{{"a", "b_c"}, {"a_b", "c"}}
+			if r.bool() {
+				pair[0], pair[1] = pair[1], pair[0]
+			}
+			for _, p := range pair {
+				ops = append(ops, relop{false, jsonapi.Rel{FromType: p[0], FromName: p[1], ToOne: one, ToType: to}})
+			}
+			o.stat("rels.collidingpair")
+		}
 		build := func(typeOrder []int, opOrder []int) *jsonapi.Schema {
 			s := &jsonapi.Schema{}
 			for _, i := range typeOrder {
@@ -561,11 +576,11 @@ func suiteSchema16(r *Rng, n int, thorough bool, o *Out) {
 			if len(rels1) != len(want) {
 				pv = fmt.Sprintf("FAIL:%d relationships listed, %d expected", len(rels1), len(want))
 			}
-			if fmt.Sprint(rels1) != fmt.Sprint(rels2) {
+			if !reflect.DeepEqual(rels1, rels2) {
 				pv = "FAIL:Rels() depends on the order in which types were added"
 			}
-			for k := 0; k < 3 && pv == "ok"; k++ {
-				if fmt.Sprint(s1.Rels()) != fmt.Sprint(rels1) {
+			for k := 0; k < 8 && pv == "ok"; k++ {
+				if !reflect.DeepEqual(s1.Rels(), rels1) {
 					pv = "FAIL:Rels() differs between calls"
 				}
 			}
